@@ -1,6 +1,9 @@
 import BddVerif.Props.C18
 import BddVerif.Lemmas.AlgoEq2ValSpec
 import BddVerif.Lemmas.AlgoEq2Cmp
+import BddVerif.Lemmas.AlgoEq4Display
+import BddVerif.Lemmas.AlgoEq4Misc
+import BddVerif.Lemmas.TraitTable
 #print axioms B.Props.C18.pv_eq_iff
 #print axioms B.Props.C18.pv_eq_equivalence
 #print axioms B.Props.C18.pv_hash_congr
@@ -44,3 +47,9 @@ import BddVerif.Lemmas.AlgoEq2Cmp
 #print axioms B.AlgoEq2Cmp.cmp_implies_spec
 #print axioms B.AlgoEq2Cmp.cmp_cardinality_spec
 #print axioms B.AlgoEq2Cmp.cmp_structural_linear_order
+#print axioms B.AlgoEq4.BddValuation_fmt_eq
+#print axioms B.AlgoEq4.BddValuation_vector_eq
+#print axioms B.AlgoEq4.BddValuation_index_eq
+#print axioms B.AlgoEq4.BddPartialValuation_index_eq
+#print axioms B.AlgoEq4.BddPartialValuation_default_eq
+#print axioms B.TraitTable.key_types_derive_eq_hash
